@@ -301,6 +301,9 @@ class SQLiteTrigger(BaseTrigger):
         expected_last_execution: datetime | None = None,
     ) -> bool:
         with sqlite_conn(self.sqlite_db_path) as conn:
+            # Take the write lock before reading: compare and store must be one
+            # atomic step across processes.
+            conn.execute("BEGIN IMMEDIATE")
             cursor = conn.execute(
                 f"SELECT last_cron_execution FROM {self.tables.CONDITIONS} WHERE condition_id = ?",
                 (condition_id,),
@@ -308,10 +311,9 @@ class SQLiteTrigger(BaseTrigger):
             row = cursor.fetchone()
             cursor.close()
             current = datetime.fromisoformat(row[0]) if row and row[0] else None
-            if (
-                expected_last_execution is not None
-                and current != expected_last_execution
-            ):
+            # expected_last_execution=None means "no execution recorded yet": the
+            # first firing is a compare-and-swap like every later one.
+            if current != expected_last_execution:
                 return False
             conn.execute(
                 f"UPDATE {self.tables.CONDITIONS} SET last_cron_execution = ? WHERE condition_id = ?",
@@ -378,6 +380,9 @@ class SQLiteTrigger(BaseTrigger):
         now = datetime.now(UTC)
         expiration = now + timedelta(seconds=expiration_seconds)
         with sqlite_conn(self.sqlite_db_path) as conn:
+            # Take the write lock before reading so that two processes cannot both
+            # see "not claimed" and both claim the run.
+            conn.execute("BEGIN IMMEDIATE")
             cursor = conn.execute(
                 f"SELECT expiration FROM {self.tables.TRIGGER_RUN_CLAIMS} WHERE trigger_run_id = ?",
                 (trigger_run_id,),
